@@ -484,7 +484,7 @@ static void run_config(int lines, int rows, int cols, int hl, int hll, int depth
 	windows = 1;
 	nops_used = nops;
 	nx_bound = depth;
-	snprintf(nx_cfg_args, sizeof(nx_cfg_args), "cfg=%d,%d,%d,%d,%d", lines, rows, cols, hl, hll);
+	snprintf(nx_cfg_args, sizeof(nx_cfg_args), "cfg=%d,%d,%d,%d,%d,%d,%d", lines, rows, cols, hl, hll, !structural, cfg_exinit_extra[0] ? 1 : 0);
 	nx_run(3, argv);
 	nv_stat("configurations", 1);
 	nx_report();
@@ -502,8 +502,10 @@ int main(int argc, char **argv)
 	nvx_term_hook = emu_feed;
 	slot = mmap(NULL, sizeof(*slot), PROT_READ | PROT_WRITE, MAP_SHARED | MAP_ANONYMOUS, -1, 0);
 	if (nv_arg(argc, argv, "cfg", NULL)) {
-		int l, r, c, h, hh;
-		sscanf(nv_arg(argc, argv, "cfg", "40,8,40,1,0"), "%d,%d,%d,%d,%d", &l, &r, &c, &h, &hh);
+		int l, r, c, h, hh, rtl = 0, td = 0;
+		sscanf(nv_arg(argc, argv, "cfg", "40,8,40,1,0"), "%d,%d,%d,%d,%d,%d,%d", &l, &r, &c, &h, &hh, &rtl, &td);
+		structural = !rtl;
+		cfg_exinit_extra = td ? "|se td=-2" : "";
 		run_config(l, r, c, h, hh, nx_replay_n >= 0 ? 10 : d, NOPS);
 		return nv_finish();
 	}
@@ -515,9 +517,9 @@ int main(int argc, char **argv)
 	/* right-to-left and mixed-direction lines, in both base directions: the repaint twin only */
 	structural = 0;
 	cfg_exinit_extra = "";
-	run_config(12, 8, 40, 1, 0, d - 1, 24);
+	run_config(12, 8, 40, 1, 0, 3, 24);
 	cfg_exinit_extra = "|se td=-2";
-	run_config(12, 8, 40, 0, 1, d - 1, 24);
+	run_config(12, 8, 40, 0, 1, 3, 24);
 	structural = 1;
 	cfg_exinit_extra = "";
 	if (nv_thorough) {
